@@ -1,3 +1,225 @@
--- stub: replaced by the property author
+import SupervisorModel.Model.ProcOps
+import SupervisorModel.Lemmas.ProcDefs
+/-
+  C03 — automatic start, retry and restart policy is exactly the configured one.
+  Theorems about `Sv.Proc` (guards/timers regenerated from supervisor/process.py).
+-/
+set_option linter.unusedSimpArgs false
+set_option linter.unusedVariables false
 namespace Sv.Props.C03
+open Sv Sv.Proc Sv.Gen.Proc
+
+def forks (outs : List Out) : List Out := outs.filter (fun o => match o with | .fork .. => true | _ => false)
+def enters (st : PS) (outs : List Out) : Bool := outs.any (fun o => match o with | .ev to .. => to == st | _ => false)
+
+theorem rollback_pid (cfg : Cfg) (now : Int) (p : Proc) :
+    (rollback cfg now p).state = p.state ∧ (rollback cfg now p).pid = p.pid ∧
+    (rollback cfg now p).backoff = p.backoff ∧ (rollback cfg now p).killing = p.killing ∧
+    (rollback cfg now p).exitstatus = p.exitstatus := by
+  simp only [rollback]
+  repeat' split
+  all_goals simp
+
+/-- **RUNNING only after startsecs** (main-loop path): a pass announces RUNNING for a STARTING
+    process exactly when the clock reads more than startsecs past the (rollback-adjusted) start. -/
+theorem running_only_after_startsecs (cfg : Cfg) (p : Proc) (now mood : Int) (res : SpawnRes) (kr : KillRes)
+    (hs : p.state = .starting) :
+    enters .running (transition cfg now mood res kr { p := p }).outs = true ↔
+      now - (rollback cfg now p).laststart > cfg.startsecs := by
+  obtain ⟨h1, h2, h3, h4, h5⟩ := rollback_pid cfg now p
+  rw [hs] at h1
+  by_cases hd : cfg.startsecs < now - (rollback cfg now p).laststart <;>
+    simp [transition, autoStart, toRunning, escalate, changeState, assertIn, emit, setP, guard, enters,
+      transition_a1, transition_a4, transition_a5, transition_g0, transition_g1, transition_g5, transition_g7, transition_g10,
+      transition_g11, transition_g12, transition_g14, transition_c0, transition_c1_0, change_state_g0, change_state_g1,
+      change_state_a0, change_state_a2, announces_all, hs, h1, hd]
+
+/-- the adjusted start time is never later than the recorded one and never in the future, so
+    under a clock that did not go backwards "RUNNING" means the child really stayed up longer than
+    startsecs; after a backward jump the start is re-based at the first pass after the jump -/
+theorem rollback_laststart_starting (cfg : Cfg) (now : Int) (p : Proc) (hs : p.state = .starting) :
+    (rollback cfg now p).laststart = min p.laststart now := by
+  simp [rollback, rollback_g0, rollback_g1, rollback_g2, rollback_a0, rollback_a1, hs]
+  repeat' split
+  all_goals ((try dsimp only); omega)
+
+/-- **Early exit ⇒ BACKOFF, whatever the exit status**: a child of a STARTING process (not being
+    stopped) reaped before startsecs have passed puts the process in BACKOFF. -/
+theorem early_exit_is_backoff (cfg : Cfg) (p : Proc) (now es : Int) (busy : Bool)
+    (hs : p.state = .starting) (hk : p.killing = false)
+    (h1 : p.laststart < now) (h2 : now - p.laststart < cfg.startsecs) :
+    let r := finish cfg now es busy { p := p }
+    r.p.state = .backoff ∧ r.p.pid = 0 ∧ r.p.backoff = p.backoff + 1 ∧
+      r.p.delay = now + 1024 * (p.backoff + 1) ∧ r.err = none := by
+  obtain ⟨g1, g2, g3, g4, g5⟩ := rollback_pid cfg now p
+  rw [hs] at g1; rw [hk] at g4
+  have hl : (rollback cfg now p).laststart = p.laststart := by
+    rw [rollback_laststart_starting cfg now p hs]; omega
+  cases busy <;>
+    simp [finish, finishCore, tooQuickly, changeState, assertIn, emit, setP, guard, finish_g0, finish_g1, finish_g3, finish_a2,
+      finish_a4, finish_a5, finish_a20, finish_c2, finish_c3_0, change_state_g0, change_state_g1, change_state_a0, change_state_a2,
+      change_state_a4, change_state_a5, announces_all, g1, g3, g4, hl, h1, h2]
+
+/-- **A start attempt that cannot be spawned ⇒ BACKOFF** (command lookup, pipe creation, fork) -/
+theorem spawn_failure_is_backoff (cfg : Cfg) (p : Proc) (now : Int) (res : SpawnRes)
+    (hs : p.state = .stopped ∨ p.state = .exited ∨ p.state = .fatal ∨ p.state = .backoff) (hpid : p.pid = 0)
+    (hres : res = .badCmd ∨ res = .pipeErr ∨ res = .forkErr) :
+    let r := spawn cfg now res { p := p }
+    r.p.state = .backoff ∧ r.p.backoff = p.backoff + 1 ∧ r.p.delay = now + 1024 * (p.backoff + 1) ∧
+      forks r.outs = [] ∧ r.err = none ∧ r.p.pid = 0 := by
+  rcases hs with hs | hs | hs | hs <;> rcases hres with hr | hr | hr <;>
+    simp [procdefs, hs, hr, hpid, forks]
+
+/-- **Retry gate.**  From BACKOFF a pass starts the process again exactly when the daemon is running,
+    the retries are not used up (`backoff ≤ startretries`) and the clock is past the retry time; the
+    retry time of the k-th failure is k seconds after it (`early_exit_is_backoff`,
+    `spawn_failure_is_backoff`: delay = t_fail + k). -/
+theorem retry_gate (cfg : Cfg) (p : Proc) (now mood : Int) (pid : Int) (kr : KillRes)
+    (hs : p.state = .backoff) (hpid : p.pid = 0) (hp : pid ≠ 0) :
+    forks (transition cfg now mood (.ok pid) kr { p := p }).outs =
+      if moodRESTARTING < mood ∧ p.backoff ≤ cfg.startretries ∧ (rollback cfg now p).delay < now
+      then [.fork pid] else [] := by
+  obtain ⟨g1, g2, g3, g4, g5⟩ := rollback_pid cfg now p
+  rw [hs] at g1; rw [hpid] at g2
+  by_cases hm : moodRESTARTING < mood <;> by_cases hb : p.backoff ≤ cfg.startretries <;>
+    by_cases hd : (rollback cfg now p).delay < now <;>
+    simp [transition, autoStart, toRunning, escalate, spawn, giveUp, changeState, assertIn, emit, setP, guard, forks,
+      transition_a1, transition_g0, transition_g1, transition_g5, transition_g7, transition_g8, transition_g9, transition_g10,
+      transition_g12, transition_g13, transition_g14, spawn_g0, spawn_g3, spawn_a3, spawn_a6, spawn_a7, spawn_a8, spawn_c0,
+      spawn_c1_0, spawn_as_parent_a0, spawn_as_parent_a3, give_up_a0, give_up_a1, give_up_a2, give_up_c0, give_up_c1_0,
+      change_state_g0, change_state_g1, change_state_a0, change_state_a2, announces_all, hs, g1, g2, g3, hm, hb, hd, hp]
+  all_goals (try (split <;> simp_all))
+
+/-- a backward clock jump never brings a retry forward in real time, and never postpones it by
+    more than the k seconds of its back-off: the adjusted retry time is min(delay, now + k) -/
+theorem rollback_delay_backoff (cfg : Cfg) (now : Int) (p : Proc) (hs : p.state = .backoff) (hd : 0 < p.delay) :
+    (rollback cfg now p).delay = min p.delay (now + 1024 * p.backoff) := by
+  simp [rollback, rollback_g0, rollback_g3, rollback_g5, rollback_g8, rollback_g9, rollback_a5, hs]
+  split <;> (try dsimp only) <;> omega
+
+/-- **FATAL after the last failure**: in BACKOFF with the retries used up, the next pass gives up —
+    whatever the daemon's mood — and forks nothing. -/
+theorem fatal_after_budget (cfg : Cfg) (p : Proc) (now mood : Int) (res : SpawnRes) (kr : KillRes)
+    (hs : p.state = .backoff) (hb : cfg.startretries < p.backoff) :
+    let r := transition cfg now mood res kr { p := p }
+    r.p.state = .fatal ∧ forks r.outs = [] ∧ r.p.backoff = 0 ∧ r.err = none := by
+  obtain ⟨g1, g2, g3, g4, g5⟩ := rollback_pid cfg now p
+  rw [hs] at g1
+  have hb' : ¬ p.backoff ≤ cfg.startretries := by omega
+  simp [transition, autoStart, toRunning, escalate, giveUp, changeState, assertIn, emit, setP, guard, forks,
+      transition_a1, transition_g0, transition_g1, transition_g5, transition_g7, transition_g8, transition_g9, transition_g10,
+      transition_g12, transition_g13, transition_g14, give_up_a0, give_up_a1, give_up_a2, give_up_c0, give_up_c1_0,
+      change_state_g0, change_state_g1, change_state_a0, change_state_a2, announces_all, hs, g1, g3, hb, hb']
+
+/-- the documented restart rule -/
+def wantsRestart (cfg : Cfg) (exitstatus : Option Int) : Bool :=
+  match cfg.autorestart with
+  | .always => true
+  | .unexpected => !(match exitstatus with | some e => cfg.exitcodes.contains e | none => false)
+  | .never => false
+
+/-- **Automatic restart, exactly.**  A pass forks a new child for an EXITED process if and only if
+    the daemon is running and autorestart is true, or is `unexpected` and the exit status is not one
+    of exitcodes (death by signal is recorded as status -1, see `signal_death_unexpected`). -/
+theorem autorestart_exact (cfg : Cfg) (p : Proc) (now mood : Int) (pid : Int) (kr : KillRes)
+    (hs : p.state = .exited) (hpid : p.pid = 0) (hp : pid ≠ 0) :
+    forks (transition cfg now mood (.ok pid) kr { p := p }).outs =
+      if moodRESTARTING < mood ∧ wantsRestart cfg p.exitstatus = true then [.fork pid] else [] := by
+  have hr : rollback cfg now p = p := by simp [rollback, rollback_g0, rollback_g3, rollback_g5, rollback_g8, hs]
+  by_cases hm : moodRESTARTING < mood <;> cases ha : cfg.autorestart <;> cases he : p.exitstatus <;>
+    simp [transition, autoStart, toRunning, escalate, spawn, changeState, assertIn, emit, setP, guard, forks, wantsRestart,
+      transition_a1, transition_g0, transition_g1, transition_g2, transition_g3, transition_g4, transition_g5, transition_g7,
+      transition_g10, transition_g12, transition_g14, spawn_g0, spawn_g3, spawn_a3, spawn_a6, spawn_a7, spawn_a8, spawn_c0,
+      spawn_c1_0, spawn_as_parent_a0, spawn_as_parent_a3,
+      change_state_g0, change_state_g1, change_state_a0, change_state_a2, announces_all, hs, hr, hm, ha, he, hp, hpid]
+  all_goals (try (split <;> simp_all))
+
+/-- a child killed by a signal has exit status -1, which no configurable exit code (0…255) equals -/
+theorem signal_death_unexpected (cfg : Cfg) (h : ∀ c ∈ cfg.exitcodes, 0 ≤ c) (ha : cfg.autorestart = .unexpected) :
+    wantsRestart cfg (some (-1)) = true := by
+  simp only [wantsRestart, ha]
+  simp
+  intro hc
+  have := h _ hc
+  omega
+
+/-- **Nothing else starts a process on its own**: a pass forks nothing for a process that is FATAL,
+    RUNNING, STARTING, STOPPING or UNKNOWN, and for a STOPPED one only the one-time autostart
+    (`autostart_once`). -/
+theorem nothing_else_starts (cfg : Cfg) (p : Proc) (now mood : Int) (res : SpawnRes) (kr : KillRes)
+    (hs : p.state = .fatal ∨ p.state = .running ∨ p.state = .starting ∨ p.state = .stopping ∨ p.state = .unknown ∨
+      (p.state = .stopped ∧ (p.laststart ≠ 0 ∨ cfg.autostart = false))) :
+    forks (transition cfg now mood res kr { p := p }).outs = [] := by
+  obtain ⟨g1, g2, g3, g4, g5⟩ := rollback_pid cfg now p
+  have hl : p.state = .stopped → (rollback cfg now p).laststart = p.laststart := by
+    intro h; simp [rollback, rollback_g0, rollback_g3, rollback_g5, rollback_g8, h]
+  rcases hs with hs | hs | hs | hs | hs | ⟨hs, hx⟩ <;> rw [hs] at g1 <;> cases kr <;>
+    simp [transition, autoStart, toRunning, escalate, kill, changeState, assertIn, emit, setP, guard, forks,
+      transition_a1, transition_a4, transition_a5, transition_g0, transition_g1, transition_g5, transition_g6, transition_g7,
+      transition_g10, transition_g11, transition_g12, transition_g14, transition_g15, transition_c0, transition_c1_0,
+      transition_c2_0, kill_g0, kill_g1, kill_g2, kill_g4, kill_a7, kill_a8, kill_a11, kill_a12, kill_a13,
+      kill_a14, kill_a19, kill_a20, kill_c1, kill_c2_0, kill_c3_0, kill_c3_1, kill_c4_0,
+      change_state_g0, change_state_g1, change_state_a0, change_state_a2, announces_all, hs, g1, hl]
+  all_goals (repeat' split)
+  all_goals (simp_all [emit, guard, setP, assertIn, changeState, change_state_g0, change_state_g1, change_state_a0, change_state_a2])
+
+/-- **Autostart at most once**: the first start stamps `laststart` with the clock reading, so with
+    a clock that does not read 0 a STOPPED process that was ever started is not autostarted again
+    (`nothing_else_starts`); the stamp is only ever moved by the rollback adjustment in STARTING and
+    RUNNING, never back to 0 for positive readings. -/
+theorem autostart_once (cfg : Cfg) (p : Proc) (now mood : Int) (pid : Int) (kr : KillRes)
+    (hs : p.state = .stopped) (hpid : p.pid = 0) (hp : pid ≠ 0) :
+    forks (transition cfg now mood (.ok pid) kr { p := p }).outs =
+      (if moodRESTARTING < mood ∧ p.laststart = 0 ∧ cfg.autostart = true then [.fork pid] else []) ∧
+    (forks (transition cfg now mood (.ok pid) kr { p := p }).outs ≠ [] →
+      (transition cfg now mood (.ok pid) kr { p := p }).p.laststart = now) := by
+  have hr : rollback cfg now p = p := by simp [rollback, rollback_g0, rollback_g3, rollback_g5, rollback_g8, hs]
+  by_cases hm : moodRESTARTING < mood <;> by_cases hl : p.laststart = 0 <;> cases ha : cfg.autostart <;>
+    simp [transition, autoStart, toRunning, escalate, spawn, changeState, assertIn, emit, setP, guard, forks,
+      transition_a1, transition_g0, transition_g1, transition_g5, transition_g6, transition_g7,
+      transition_g10, transition_g12, transition_g14, spawn_g0, spawn_g3, spawn_a3, spawn_a6, spawn_a7, spawn_a8, spawn_c0,
+      spawn_c1_0, spawn_as_parent_a0, spawn_as_parent_a3,
+      change_state_g0, change_state_g1, change_state_a0, change_state_a2, announces_all, hs, hr, hm, ha, hl, hp, hpid]
+
+/-- **The retry counter is reset by success**: reaching RUNNING clears it (so a later failure
+    sequence gets the full budget again) -/
+theorem counter_reset_on_success (cfg : Cfg) (p : Proc) (now mood : Int) (res : SpawnRes) (kr : KillRes)
+    (hs : p.state = .starting) (hd : now - (rollback cfg now p).laststart > cfg.startsecs) :
+    let r := transition cfg now mood res kr { p := p }
+    r.p.state = .running ∧ r.p.backoff = 0 ∧ r.p.delay = 0 ∧ r.err = none := by
+  obtain ⟨g1, g2, g3, g4, g5⟩ := rollback_pid cfg now p
+  rw [hs] at g1
+  have hd' : cfg.startsecs < now - (rollback cfg now p).laststart := by omega
+  simp [transition, autoStart, toRunning, escalate, changeState, assertIn, emit, setP, guard,
+      transition_a1, transition_a4, transition_a5, transition_g0, transition_g1, transition_g5, transition_g7, transition_g10,
+      transition_g11, transition_g12, transition_g14, transition_c0, transition_c1_0, change_state_g0, change_state_g1,
+      change_state_a0, change_state_a2, announces_all, hs, g1, hd']
+
+/-- **Exit after RUNNING**: a RUNNING process whose child is reaped (not being stopped) becomes
+    EXITED with the status recorded and `expected` telling whether the status is in exitcodes —
+    never BACKOFF, whatever the clock did (the rollback adjustment makes `too quickly` false). -/
+theorem running_exit_is_exited (cfg : Cfg) (p : Proc) (now es : Int) (busy : Bool)
+    (hs : p.state = .running) (hk : p.killing = false) (hw : 0 ≤ cfg.startsecs) :
+    let r := finish cfg now es busy { p := p }
+    r.p.state = .exited ∧ r.p.exitstatus = some es ∧ r.p.pid = 0 ∧ r.p.backoff = 0 ∧ r.err = none ∧
+      enters .backoff r.outs = false := by
+  obtain ⟨g1, g2, g3, g4, g5⟩ := rollback_pid cfg now p
+  rw [hs] at g1; rw [hk] at g4
+  have hq : (rollback cfg now p).laststart < now → ¬ (now - (rollback cfg now p).laststart < cfg.startsecs) := by
+    simp [rollback, rollback_g0, rollback_g3, rollback_g4, rollback_a2, hs]
+    repeat' split
+    all_goals (intros; (try dsimp only at *); omega)
+  by_cases hlt : (rollback cfg now p).laststart < now
+  · have hq' := hq hlt
+    cases busy <;> by_cases hx : es ∈ cfg.exitcodes <;>
+      simp [finish, finishCore, tooQuickly, changeState, assertIn, emit, setP, guard, enters, finish_g0, finish_g1, finish_g3,
+        finish_g4, finish_g5, finish_a2, finish_a4, finish_a5, finish_a6, finish_a14, finish_a15, finish_a16, finish_a20,
+        finish_c4_0, finish_c5, finish_c6_0, finish_c6_1, finish_c7_0, finish_c7_1, change_state_g0, change_state_g1,
+        change_state_a0, change_state_a2, announces_all, g1, g4, hlt, hq', hx]
+  · cases busy <;> by_cases hx : es ∈ cfg.exitcodes <;>
+      simp [finish, finishCore, tooQuickly, changeState, assertIn, emit, setP, guard, enters, finish_g0, finish_g1, finish_g3,
+        finish_g4, finish_g5, finish_a2, finish_a4, finish_a5, finish_a6, finish_a14, finish_a15, finish_a16, finish_a20,
+        finish_c4_0, finish_c5, finish_c6_0, finish_c6_1, finish_c7_0, finish_c7_1, change_state_g0, change_state_g1,
+        change_state_a0, change_state_a2, announces_all, g1, g4, hlt, hx]
+
 end Sv.Props.C03
